@@ -227,9 +227,9 @@ def run(ctx):
         evs, _ = ctx.events(fnp)
         rets = [e for e in evs if e.kind == 'ret' and 'ConnectionTimeout' in S.show(e.term)]
         if r.check('timeout-return', len(rets) == 1, ctx.site(fnp), built=[S.show(e.term) for e in rets]):
-            gs = [(g[1], g[3]) for g in rets[0].guards if g[2] == 'if']
-            want = [('then', 'mio::Events::is_empty($m1)'), ('then', 'let Some(_) = self.connection_timeout'),
-                    ('then', '(std::time::Instant::elapsed(std::time::Instant::now()) > self.connection_timeout.Some.0)')]
+            gs = [x for g in rets[0].guards if g[2] in ('if', 'match', 'armguard') for x in S.guard_strs(g)]
+            want = ['if(mio::Events::is_empty($m1))', 'case(self.connection_timeout ~ Some(_))',
+                    'if((self.connection_timeout.Some.0 < std::time::Instant::elapsed(std::time::Instant::now())))']
             r.eq('timeout-guards', gs, want, ctx.site(fnp, rets[0].node), why='only an empty poll that lasted longer than the configured timeout')
         polls = [e for e in evs if e.kind == 'call' and e.callee == 'mio::Poll::poll']
         r.check('poll-uses-timeout', len(polls) == 1 and S.show(polls[0].args[2]) == 'self.connection_timeout', ctx.site(fnp), built=[S.show(e.term) for e in polls])
